@@ -12,10 +12,14 @@ Mirrors
 * `LFRicStencils.__init__` — unique extent arguments and unique direction arguments (each list de-duplicated
   on the text, `x_direction` / `y_direction` never passed, literal extents never passed, a literal
   direction is refused with a GenerationError);
-* `LFRicInvoke.__init__` / `LFRicInvoke.gen_code` — the algorithm call passes
-  `_alg_unique_args ++ stencil texts ++ qr texts`, the PSy routine declares
-  `psy_unique_var_names ++ stencil names ++ qr names`.  (FIXED code: the stencil part of the algorithm
-  list holds the argument *texts*, `LFRicStencils.unique_alg_args`, see fixes/C24-stencil-alg-text.patch.)
+* `LFRicInvoke.__init__` / `LFRicInvoke.gen_code` — FIXED code (fixes/C24-stencil-alg-text.patch, committed, and
+  fixes/C24-two-roles-dedup.patch): the algorithm call passes `_alg_unique_args`, then the stencil TEXTS
+  (`LFRicStencils.unique_alg_args`) and the quadrature texts that are not yet in the list; the PSy routine
+  declares `dict.fromkeys(psy_unique_var_names + stencil names + qr names)`.
+* the kind of symbol each registration creates (`find_or_create_tag` with `symbol_type=DataSymbol` for kernel
+  data arguments, plain `Symbol` for stencil extents, `find_or_create_integer_symbol` for directions and
+  quadrature objects) and the resulting aborts (SymbolError / TypeError) when an expression registered in one
+  role is looked up again in an incompatible role.
 * `alg_gen.Alg.gen` — the `call invoke(...)` is replaced by `call <name>(<alg_unique_args>)`.
 
 Core Lean only. -/
@@ -44,6 +48,10 @@ inductive Actual where
 structure Slot where
   role : Role
   act : Actual
+  /-- id of the class of the expression AS SPELLED under PSyIR `SymbolicMaths.equal` (symbol names are
+  case-insensitive, member names after `%` are not, index expressions are compared symbolically); only used
+  by the PSyIR-based algorithm path (`actualsB`). -/
+  cls : Nat
   deriving DecidableEq, Repr
 
 abbrev Kernel := List Slot
@@ -59,14 +67,26 @@ def uniq {α} [DecidableEq α] (l : List α) : List α := uniqAcc [] l
 
 /-! ## Symbol table: tags `AlgArgs_<text>` and name allocation -/
 
+/-- What kind of symbol the first registration of a tag created. -/
+inductive SymKind where
+  | generic     -- `find_or_create_tag(tag, root)`: plain Symbol (stencil extent)
+  | intsym      -- `find_or_create_integer_symbol`: integer DataSymbol (direction, quadrature)
+  | data        -- `find_or_create_tag(..., symbol_type=DataSymbol, datatype=infer_datatype())` (kernel data argument)
+  deriving DecidableEq, Repr
+
 structure SymTab where
   tags : List (Text × Name)    -- insertion order
   used : List Name             -- every name in the table (reserved names included)
+  kinds : List (Text × SymKind)
   deriving Repr
 
 def lookupTag : List (Text × Name) → Text → Option Name
   | [], _ => none
   | (t', n) :: rest, t => if t' = t then some n else lookupTag rest t
+
+def lookupKind : List (Text × SymKind) → Text → Option SymKind
+  | [], _ => none
+  | (t', k) :: rest, t => if t' = t then some k else lookupKind rest t
 
 /-- `SymbolTable.next_available_name`: `root`, `root_1`, `root_2`, … — first one not in use.
 `fuel` = number of names in use + 1 always suffices. -/
@@ -76,13 +96,43 @@ def allocFrom (used : List Name) (r : Root) : Nat → Nat → Nat
 
 def alloc (used : List Name) (r : Root) : Name := (r, allocFrom used r (used.length + 1) 0)
 
-/-- `find_or_create_tag("AlgArgs_" + text, root_name=varname)`. -/
-def reg (st : SymTab) (p : Text × Root) : SymTab :=
+/-- `find_or_create_tag("AlgArgs_" + text, root_name=varname)` (kind recorded for a new symbol). -/
+def reg (st : SymTab) (p : Text × Root) (k : SymKind) : SymTab :=
   match lookupTag st.tags p.1 with
   | some _ => st
   | none =>
     let n := alloc st.used p.2
-    { tags := st.tags ++ [(p.1, n)], used := n :: st.used }
+    { tags := st.tags ++ [(p.1, n)], used := n :: st.used, kinds := st.kinds ++ [(p.1, k)] }
+
+def kindFor : Role → SymKind
+  | .data => .data
+  | .extent => .generic
+  | .direction => .intsym
+  | .qr => .intsym
+
+/-- Is a lookup in role `ro` of a tag whose symbol has kind `k` accepted?
+data: `isinstance(symbol, DataSymbol)` (else SymbolError); extent: no check; direction / quadrature:
+DataSymbol whose datatype *equals* `LFRicIntegerScalarDataType()` — the datatype inferred for a kernel
+data argument never compares equal (TypeError "not an integer"), a plain Symbol is "not a DataSymbol". -/
+def compat : Option SymKind → Role → Bool
+  | none, _ => true
+  | some .generic, .data => false
+  | some _, .data => true
+  | some _, .extent => true
+  | some .intsym, .direction => true
+  | some _, .direction => false
+  | some .intsym, .qr => true
+  | some _, .qr => false
+
+def regR (st : SymTab) (q : (Text × Root) × Role) : Option SymTab :=
+  if compat (lookupKind st.kinds q.1.1) q.2 then some (reg st q.1 (kindFor q.2)) else none
+
+def regAll : SymTab → List ((Text × Root) × Role) → Option SymTab
+  | st, [] => some st
+  | st, q :: qs =>
+    match regR st q with
+    | none => none
+    | some st' => regAll st' qs
 
 def nameOf (st : SymTab) (t : Text) : Name := (lookupTag st.tags t).getD (0, 0)
 
@@ -100,6 +150,8 @@ def varOf (s : Slot) : Option (Text × Root) :=
   | .var t r => some (t, r)
   | _ => none
 
+def regOf (s : Slot) : Option ((Text × Root) × Role) := (varOf s).map fun p => (p, s.role)
+
 def textIf (ro : Role) (s : Slot) : Option Text :=
   if s.role = ro then (varOf s).map Prod.fst else none
 
@@ -110,47 +162,6 @@ def isStencil (s : Slot) : Bool :=
   | _ => false
 
 def isRole (ro : Role) (s : Slot) : Bool := decide (s.role = ro)
-
-/-- `DynKernelArguments.__init__` creates the data arguments in order, then goes over the stencil
-extents / directions; `LFRicKern._setup` registers the quadrature arguments afterwards. -/
-def regOrder (k : Kernel) : List Slot :=
-  k.filter (isRole .data) ++ k.filter isStencil ++ k.filter (isRole .qr)
-
-def regList (inv : Invoke) : List (Text × Root) :=
-  (inv.map fun k => (regOrder k).filterMap varOf).flatten
-
-def build (reserved : List Name) (inv : Invoke) : SymTab :=
-  (regList inv).foldl reg { tags := [], used := reserved }
-
-/-! ## The two argument lists -/
-
-/-- Texts of the variable arguments of one role, in the order written (all kernels). -/
-def textsOf (ro : Role) (inv : Invoke) : List Text := inv.flatten.filterMap (textIf ro)
-
-/-- Actual arguments of the rewritten algorithm call. -/
-def actuals (inv : Invoke) : List Text :=
-  uniq (textsOf .data inv) ++ uniq (textsOf .extent inv) ++ uniq (textsOf .direction inv)
-    ++ uniq (textsOf .qr inv)
-
-/-- Dummy arguments of the PSy-layer routine. -/
-def dummies (st : SymTab) (inv : Invoke) : List Name :=
-  uniq ((textsOf .data inv).map (nameOf st))
-    ++ (uniq (textsOf .extent inv)).map (nameOf st)
-    ++ (uniq (textsOf .direction inv)).map (nameOf st)
-    ++ uniq ((textsOf .qr inv).map (nameOf st))
-
-/-- What the PSy layer hands to the kernel for one position of the kernel call. -/
-inductive KArg where
-  | lit (v : Nat)          -- the literal itself
-  | sym (n : Name)         -- (data reached through) the PSy-layer symbol `n`
-  | dirconst (c : Nat)
-  deriving DecidableEq, Repr
-
-def kernArg (st : SymTab) (s : Slot) : KArg :=
-  match s.act with
-  | .lit v => .lit v
-  | .var t _ => .sym (nameOf st t)
-  | .dirconst c => .dirconst c
 
 /-- `LFRicStencils.__init__`: "a literal is not a valid value for a stencil direction". -/
 def badSlot (s : Slot) : Bool :=
@@ -166,8 +177,67 @@ def hasDup : List Text → Bool
 
 def dataTexts (k : Kernel) : List Text := k.filterMap (textIf .data)
 
-def refused (inv : Invoke) : Bool :=
-  inv.any (fun k => hasDup (dataTexts k)) || inv.flatten.any badSlot
+inductive Step where
+  | ok (st : SymTab)
+  | crashed            -- SymbolError / TypeError out of the symbol table
+  | refused            -- GenerationError
+  deriving Repr
+
+/-- Creation of one kernel call: `DynKernelArguments.__init__` creates the data arguments in order, then goes
+over the stencil extents / directions; back in `Kern.__init__` the repeated-argument check; `LFRicKern._setup`
+then registers the quadrature arguments. -/
+def kernelStep (st : SymTab) (k : Kernel) : Step :=
+  match regAll st ((k.filter (isRole .data) ++ k.filter isStencil).filterMap regOf) with
+  | none => .crashed
+  | some st1 =>
+    if hasDup (dataTexts k) then .refused
+    else match regAll st1 ((k.filter (isRole .qr)).filterMap regOf) with
+      | none => .crashed
+      | some st2 => .ok st2
+
+def buildK : SymTab → Invoke → Step
+  | st, [] => .ok st
+  | st, k :: ks =>
+    match kernelStep st k with
+    | .ok st' => buildK st' ks
+    | .crashed => .crashed
+    | .refused => .refused
+
+def initTab (reserved : List Name) : SymTab := { tags := [], used := reserved, kinds := [] }
+
+/-! ## The two argument lists -/
+
+/-- Texts of the variable arguments of one role, in the order written (all kernels). -/
+def textsOf (ro : Role) (inv : Invoke) : List Text := inv.flatten.filterMap (textIf ro)
+
+/-- Actual arguments of the rewritten algorithm call: `_alg_unique_args` (data arguments), extended by the
+stencil texts `dict.fromkeys(unique extents + unique directions)` not yet in the list, extended by the unique
+quadrature texts not yet in the list. -/
+def actuals (inv : Invoke) : List Text :=
+  uniqAcc
+    (uniqAcc (uniq (textsOf .data inv)) (uniq (uniq (textsOf .extent inv) ++ uniq (textsOf .direction inv))))
+    (uniq (textsOf .qr inv))
+
+/-- Dummy arguments of the PSy-layer routine:
+`dict.fromkeys(psy_unique_var_names + stencil.unique_alg_vars + _psy_unique_qr_vars)`. -/
+def dummies (st : SymTab) (inv : Invoke) : List Name :=
+  uniq (uniq ((textsOf .data inv).map (nameOf st))
+    ++ (uniq (textsOf .extent inv)).map (nameOf st)
+    ++ (uniq (textsOf .direction inv)).map (nameOf st)
+    ++ uniq ((textsOf .qr inv).map (nameOf st)))
+
+/-- What the PSy layer hands to the kernel for one position of the kernel call. -/
+inductive KArg where
+  | lit (v : Nat)          -- the literal itself
+  | sym (n : Name)         -- (data reached through) the PSy-layer symbol `n`
+  | dirconst (c : Nat)
+  deriving DecidableEq, Repr
+
+def kernArg (st : SymTab) (s : Slot) : KArg :=
+  match s.act with
+  | .lit v => .lit v
+  | .var t _ => .sym (nameOf st t)
+  | .dirconst c => .dirconst c
 
 structure Output where
   actuals : List Text
@@ -175,18 +245,29 @@ structure Output where
   kcalls : List (List KArg)
   deriving Repr
 
-def generate (reserved : List Name) (inv : Invoke) : Option Output :=
-  if refused inv then none
-  else
-    let st := build reserved inv
-    some { actuals := actuals inv, dummies := dummies st inv,
-           kcalls := inv.map fun k => k.map (kernArg st) }
+inductive Result where
+  | ok (o : Output)
+  | crashed
+  | refused
+  deriving Repr
 
-/-- Side condition of the partial theorem: no argument text is used in two different roles
-(e.g. the same integer as a kernel scalar and as a stencil extent). -/
-def roleTexts (inv : Invoke) : List (List Text) :=
-  [textsOf .data inv, textsOf .extent inv, textsOf .direction inv, textsOf .qr inv]
+def generate (reserved : List Name) (inv : Invoke) : Result :=
+  match buildK (initTab reserved) inv with
+  | .crashed => .crashed
+  | .refused => .refused
+  | .ok st =>
+    if inv.flatten.any badSlot then .refused
+    else .ok { actuals := actuals inv, dummies := dummies st inv,
+               kcalls := inv.map fun k => k.map (kernArg st) }
 
+/-- The symbol table of an accepted invoke. -/
+def tableOf (reserved : List Name) (inv : Invoke) : SymTab :=
+  match buildK (initTab reserved) inv with
+  | .ok st => st
+  | _ => initTab reserved
+
+/-- No argument text is used in two different roles (e.g. the same integer as a kernel scalar and as a
+stencil extent). -/
 def disjointB (a b : List Text) : Bool := a.all fun x => !(b.contains x)
 
 def groupsDisjoint (inv : Invoke) : Bool :=
